@@ -172,7 +172,11 @@ class VectorField(DataFieldBase):
         else:
             label = f"{comp_name} component"
         return ScalarField(
-            self.grid, data=self._data_full[axis], label=label, with_ghost_cells=True
+            self.grid,
+            data=self._data_full[axis],
+            label=label,
+            dtype=self.dtype,
+            with_ghost_cells=True,
         )
 
     def __setitem__(self, key: int | str, value: NumberOrArray | ScalarField):
